@@ -189,6 +189,10 @@ func configText(sc Scenario, root string, servers []string, variant string) stri
 	}
 	fields := "[facility, level, time, host, app, pid, source, extradata, log, kind]"
 	extra := ""
+	// "<variant>+moreoutputs": the same configuration with one more output/buffer pair (nothing in the documented reload
+	// restrictions forbids that; its upstream is down, its queue is not looked at)
+	moreOutputs := strings.HasSuffix(variant, "+moreoutputs")
+	variant = strings.TrimSuffix(variant, "+moreoutputs")
 	switch variant {
 	case "valid":
 		fields = "[facility, level, time, host, app, pid, source, extradata, log, kind, added]"
@@ -220,6 +224,10 @@ func configText(sc Scenario, root string, servers []string, variant string) stri
 		hidden := "[kind, extradata, facility, pid, time]"
 		b.WriteString(fmt.Sprintf("  - name: out%d\n    buffer:\n      type: hybridBuffer\n      rootPath: %s\n      maxBufSize: %s\n    output:\n      type: fluentdForward\n      serialization:\n        environmentFields: [host, app]\n        hiddenFields: %s\n      messageMode: %s\n      upstream:\n        address: %s\n        tls: false\n        secret: \"%s\"\n        maxDuration: %s\n",
 			i, filepath.Join(root, fmt.Sprintf("out%d", i)), maxBuf, hidden, mode, servers[i], secretOf(sc), rotation(sc)))
+	}
+	if moreOutputs {
+		b.WriteString(fmt.Sprintf("  - name: outextra\n    buffer:\n      type: hybridBuffer\n      rootPath: %s\n      maxBufSize: 200MB\n    output:\n      type: fluentdForward\n      serialization:\n        environmentFields: [host, app]\n        hiddenFields: [kind]\n      messageMode: Forward\n      upstream:\n        address: 127.0.0.1:1\n        tls: false\n        secret: \"\"\n        maxDuration: 30m\n",
+			filepath.Join(root, "outextra")))
 	}
 	return b.String()
 }
@@ -501,7 +509,11 @@ func runScenario(sc Scenario) *Outcome {
 					if d := time.Until(t0.Add(time.Duration(rs.AtMs) * time.Millisecond)); d > 0 {
 						time.Sleep(d)
 					}
-					_ = os.WriteFile(confPath, []byte(configText(sc, filepath.Join(root, "buf"), addrs, rs.Variant)), 0o644)
+					fileVariant := rs.Variant
+					if rs.Variant == "moreoutputs" {
+						fileVariant = activeVariant + "+moreoutputs"
+					}
+					_ = os.WriteFile(confPath, []byte(configText(sc, filepath.Join(root, "buf"), addrs, fileVariant)), 0o644)
 					before := vh.Gather(prometheus.DefaultGatherer)
 					ro := ReloadObs{Gen: gi, Variant: rs.Variant, Burst: rs.Burst, Start: time.Now()}
 					trigger := ag.reload
